@@ -6,12 +6,15 @@
    types of v are those of schema s (struct/enum TYPE names are not compared); schema_ty: the
    shape a schema prescribes; schema_skip: the reader that knows nothing but the schema.
 
-   What is proved here holds for EVERY schema and EVERY item tree.  That the items a given
-   Rust type emits do conform to that type's SCHEMA constant is a statement about rustc,
-   serde's impls and two proc-macros; it is checked by running `conforms` (extracted) and an
-   independent checker on the captured items of a corpus covering every built-in impl and the
-   derive (see DESIGN.md, C14: partial on the "programs" axis). *)
-From PV Require Import Base DataModel Schema SchemaConv SchemaOps Conform Ser De ConformFacts.
+   The first two theorems hold for EVERY schema and EVERY item tree.  The per-type layer:
+   sty is the language of type expressions over the built-in impls (and the plain derive forms);
+   schema_of evaluates the `impl Schema for X` rows the translator read from postcard-schema
+   (GenSchemaImpls.v, regenerated on every run); emit_ok d t v says v is a tree of items a value
+   of type t serialises as (hand model of serde's Serialize impls and of serde_derive, compared
+   with the recorded call tree of every corpus value on every run, as is schema_of with the
+   real SCHEMA constant).  C14_builtin_rows_conform then says: the rows give every such type a
+   schema that its own items conform to. *)
+From PV Require Import Base DataModel Schema SchemaDecl SchemaConv SchemaOps Conform Ser De ConformFacts GenSchemaImpls SchemaImpls SchemaImplFacts.
 Open Scope N_scope.
 
 (* conforming items have exactly the shape the schema prescribes *)
@@ -25,6 +28,30 @@ Theorem C14_schema_reader_exact : forall d v s rest,
   conforms d v s = true -> bytes_ok rest ->
   ser_err (erase v) = None /\ schema_skip d s (enc (erase v) ++ rest) = Ok rest.
 Proof. exact conforms_skip. Qed.
+
+(* every type expression in range has a row, for any nesting *)
+Theorem C14_builtin_rows_total : forall t, sty_ok t = true -> exists s, schema_of t = Some s.
+Proof. exact schema_of_total. Qed.
+(* and what a value of the type serialises as conforms to the schema its row builds: element
+   kinds (i16 is I16, NonZeroU32 is U32, ...), tuple and array arity, field names and order of
+   the ranges, variant names and indices of Result, map key/value kinds, at any nesting *)
+Theorem C14_builtin_rows_conform : forall d t s v,
+  sty_ok t = true -> schema_of t = Some s -> emit_ok d t v = true -> conforms d v s = true.
+Proof. intros d t s v Hok Hs He. exact (builtin_conforms d t Hok s v Hs He). Qed.
+(* the rows compiled under the alloc feature, and those for heapless 0.8, are the same rows *)
+Theorem C14_alias_rows :
+  Forall (fun ab => assoc (fst ab) schema_impls = assoc (snd ab) schema_impls /\ assoc (snd ab) schema_impls <> None) alias_rows.
+Proof. exact rows_alias. Qed.
+Example C14_builtin_example :
+  let t := YBTreeMap YString (YResult (YTuple [YNonZero I16; YArray YBool 2]) (YOption (YRangeTo YChar))) in
+  let v := NMap [(NStr [107], NVariant [] 0 [79; 107] (NNewtypeStruct [] (NTuple [NInt I16 (-5); NTuple [NBool true; NBool false]])));
+                 (NStr [], NVariant [] 1 [69; 114; 114] (NNewtypeStruct [] (NSome (NStruct [] [([101; 110; 100], NChar 233)]))))] in
+  sty_ok t = true /\ emit_ok 1 t v = true /\
+  schema_of t = Some (SMap (SPrim PString)
+    (SEnum [82; 101; 115; 117; 108; 116; 60; 84; 44; 32; 69; 62]
+       [([79; 107], DNewtype, [([], STuple [SPrim PI16; STuple [SPrim PBool; SPrim PBool]])]);
+        ([69; 114; 114], DNewtype, [([], SOption (SStruct [82; 97; 110; 103; 101; 84; 111; 60; 84; 62] DStruct [([101; 110; 100], SPrim PChar)]))])])).
+Proof. repeat split; vm_compute; reflexivity. Qed.
 
 (* non-vacuity: enum E { A, B { x: u8, y: i16 } } inside an Option inside a Vec; a renamed field
    or a wrong variant index does not conform *)
@@ -41,3 +68,6 @@ Proof. repeat split; vm_compute; reflexivity. Qed.
 
 Print Assumptions C14_conforms_typed.
 Print Assumptions C14_schema_reader_exact.
+Print Assumptions C14_builtin_rows_total.
+Print Assumptions C14_builtin_rows_conform.
+Print Assumptions C14_alias_rows.
